@@ -1,16 +1,47 @@
-"""C12 - SolverComposite answers like a monolithic solver (bounded only)."""
+"""C12 - SolverComposite answers like a monolithic solver.  Mixed: CompositeFrontend (+ CompositedCacheMixin) proved in isolation over
+independent children, histories on the real SolverComposite bounded."""
+from vf.common import task
 from vf.props import _rtc
 
-LEVEL = "exploration"
-LEVEL_TEXT = ("Bounded only, never counted as proved: CompositeFrontend needs ownership reasoning over weak sets of shared mutable child solvers "
-              "that the contract engine cannot express; histories (adds, queries, branch, simplify, split, combine, merge) over alphabets that "
-              "connect and disconnect variable groups are driven against the real SolverComposite and every answer is judged by a stateless reference.")
-TECHNIQUE = "bounded run-time contracts on histories (stand-in; no deductive part)"
+LEVEL = "other"
+LEVEL_TEXT = ("Mixed.  PROVED: the real CompositeFrontend with the real CompositedCacheMixin on top (as in SolverComposite), in isolation over contract "
+              "stubs of its child solvers.  Constraints are symbolic truth tables over three 1-bit variables that depend only on their own variables, "
+              "so children over disjoint variables are independent.  From an arbitrary state satisfying the representation invariant - children "
+              "partition the variables (every partition shape of three variables), the children's constraints have the models of everything that "
+              "was added (or the unsat flag is set and the constraints are unsatisfiable), only owned children are ever extended (copy on write), "
+              "children not marked unchecked are satisfiable, and every cached merged solver holds the current constraints of the children it stands "
+              "for -: _add (constraint over any variable set: connecting children, new variables, concrete True/False) re-establishes the invariant; "
+              "satisfiable is exact (also with extra constraints); eval / batch_eval / max / min / solution ask exactly one child, with the caller's "
+              "expression and extra constraints, whose constraints allow exactly the values the whole constraint set allows, and return its answer "
+              "unchanged; is_true / is_false ask a child whose constraints are implied; branch leaves no child owned by both sides and an add on the "
+              "branch leaves the parent intact; split hands out copies with the solver's models; simplify keeps the models.  The input class of the "
+              "recorded finding 'ensure-sat-skipped-with-extras' is excluded from the value clause and nothing else.  BOUNDED (never counted as proved): "
+              "histories on the real SolverComposite (adds, queries, branch, simplify, split, combine, merge) judged by a stateless reference; "
+              "CompositeFrontend.merge/combine and unsat cores are covered there only.")
+EXPLANATION = ("proved: 61 obligations of CompositeFrontend+CompositedCacheMixin over stub children (13 methods, the query methods per partition shape); "
+               "bounded: histories on the real SolverComposite")
+TECHNIQUE = "class-in-isolation deductive proof of CompositeFrontend's representation invariant, copy-on-write discipline and query equivalence over independent children (pyvc, z3) + bounded run-time contracts on histories"
 RULE = _rtc.RTC_RULE
-FUNCTIONS = []
-TRUSTED = _rtc.RTC_TRUSTED
-ASSUMPTIONS = ["bounded: histories of length <= 3 exhaustively over a reduced alphabet (quick), longer and random in thorough"]
+M = "vf.contracts.composite"
+FUNCTIONS = ["CompositeFrontend." + m for m in ["_add", "_add_dependent_constraints", "_claim", "_store_child", "_solver_for_names", "_merged_solver_for", "_names_for",
+                                                "_solvers_for_variables", "_solver_list", "_ensure_sat", "_reabsorb_solver", "_split_child", "check_satisfiability", "satisfiable",
+                                                "eval", "batch_eval", "max", "min", "solution", "is_true", "is_false", "_copy", "_blank_copy", "split", "simplify"]] + \
+            ["CompositedCacheMixin." + m for m in ["_solver_for_names", "_store_child", "_remove_cached", "_copy", "_blank_copy"]] + ["ConstrainedFrontend._split_constraints (C15)"]
+TRUSTED = _rtc.RTC_TRUSTED + ["contract of the child solvers (vf/contracts/composite.py:TChild): exact satisfiability, combine / split / branch per C15, queries answered with a token; their own correctness is C11",
+                              "children over disjoint variables are independent (true of constraints that mention only their own variables: the support assumption of the truth tables)"]
+ASSUMPTIONS = ["universe of three 1-bit variables; every partition of them into children; one constraint per child in the start state; 1-bit query expressions",
+               "CompositeFrontend.merge / combine, unsat_core, timeout/max_memory setters: bounded part only",
+               "ModelCacheMixin.update during _reabsorb_solver is a no-op in the stub (the children's caches are C11)",
+               "per-method contracts compose to histories by induction (stated, not mechanised)"]
 
 
 def tasks(tier, seed=0):
-    return _rtc.rtc_tasks("C12", tier, seed)
+    from vf.contracts import composite
+    out = []
+    for m in composite.METHODS:
+        if m in ("satisfiable", "eval", "batch_eval", "max", "min", "solution", "is_true", "is_false"):
+            for p in range(len(composite.PARTITIONS)):
+                out.append(task(M, "ob_composite", f"composite.{m}/rep+answer@children={'+'.join(composite.PARTITIONS[p]) or 'none'}", ["C12"], method=m, part=p, tier=tier))
+        else:
+            out.append(task(M, "ob_composite", f"composite.{m}/rep", ["C12"] + (["C14"] if m == "branch" else []) + (["C15"] if m == "split" else []), method=m, tier=tier))
+    return out + _rtc.rtc_tasks("C12", tier, seed)
